@@ -24,14 +24,15 @@ LEVEL = "exploration"
 RULE = (
     "(a) random files = prologue + start marker + body + end marker + epilogue: styles x86 {movl|mov $111,%ebx + .byte "
     "100,103,144 on 1/2/3 lines, #/'//' OSACA-BEGIN..END, none}, AArch64 {mov x1,#111 + .byte 213,3,32,31 on 1/2/4 lines, "
-    "// OSACA-BEGIN..END, none}; decoys (other value, other register + NOP bytes; right mov without bytes) in all three "
+    "// OSACA-BEGIN..END, none}; decoys (other value, other register + NOP bytes; right mov without bytes or with other/fewer bytes) in all three "
     "parts; non-trivial = file has a marker and (a decoy or a non-instruction line in the body); (b) random --lines "
     "strings of 1-6 items a | a-b | a:b; (c) shipped marked kernel x model x {fixed,optimal}: 4 variants; non-trivial = "
     ">=1 noise line inserted and kernel has a CP; distinct = digest of file text / string / (file, model, noise seed)"
 )
 ASSUMPTIONS = [
     "one start and one end marker per file, start before end, both of the same style; a .byte line never directly "
-    "follows a start marker's bytes; the bytes-less decoy is never followed (ignoring blank lines) by a .byte line",
+    "follows a start marker's bytes; the bytes-less decoy is never followed (ignoring blank lines) by a .byte line; a "
+    "wrong-bytes decoy never has the NOP bytes as a prefix of its byte sequence (NOP bytes + more bytes: not generated)",
     "'mov w1,#111', hexadecimal marker bytes, marker comments with extra text are outside the statement (not generated)",
     "blank lines are not lines of the kernel (the parser drops them); expected selections list non-blank lines only",
     "--lines strings: ascending ranges, no spaces; the analysed kernel = parsed lines whose number is named, in file order",
@@ -94,23 +95,43 @@ STYLES = {
 }
 
 
+DECOY_KINDS = ["other-reg", "other-val", "other-reg-end", "other-val-end", "no-bytes", "no-bytes-end", "wrong-bytes",
+               "wrong-bytes-end"]
+
+
 def decoy(isa, r):
-    """(kind, lines).  The NOP bytes are the genuine ones: only the mov differs."""
+    """(kind, lines).  Either the mov differs and the NOP bytes are the genuine ones, or the mov is the genuine one and
+    the bytes are missing / are other bytes (same count or fewer, never the NOP bytes plus more)."""
+    k = r.choice(DECOY_KINDS)
     if isa == "x86":
-        by = r.choice([[".byte 100,103,144"], [".byte 100", ".byte 103", ".byte 144"]])
-        k = r.choice(["other-reg", "other-val", "other-reg-end", "other-val-end", "no-bytes", "no-bytes-end"])
+        good = ["100", "103", "144"]
         mov = {"other-reg": "movl $111, %eax", "other-val": "movl $112, %ebx", "other-reg-end": "movl $222, %ecx",
-               "other-val-end": "movl $223, %ebx", "no-bytes": "movl $111,%ebx", "no-bytes-end": "movl $222, %ebx"}[k]
+               "other-val-end": "movl $223, %ebx", "no-bytes": "movl $111,%ebx", "no-bytes-end": "movl $222, %ebx",
+               "wrong-bytes": "movl $111, %ebx", "wrong-bytes-end": "movl $222, %ebx"}[k]
     else:
-        by = r.choice([[".byte 213,3,32,31"], [".byte 213", ".byte 3", ".byte 32", ".byte 31"]])
-        k = r.choice(["other-reg", "other-val", "other-reg-end", "other-val-end", "no-bytes", "no-bytes-end"])
+        good = ["213", "3", "32", "31"]
         mov = {"other-reg": "mov x2, #111", "other-val": "mov x1, #112", "other-reg-end": "mov x3, #222",
-               "other-val-end": "mov x1, #221", "no-bytes": "mov x1, #111", "no-bytes-end": "mov x1, #222"}[k]
+               "other-val-end": "mov x1, #221", "no-bytes": "mov x1, #111", "no-bytes-end": "mov x1, #222",
+               "wrong-bytes": "mov x1, #111", "wrong-bytes-end": "mov x1, #222"}[k]
     if k.startswith("no-bytes"):
         # followed by something that is not a .byte line (an instruction, a directive, a label or a comment)
         nxt = r.choice([r.choice(FILL[isa]), r.choice(DIRECTIVES), ".Ld%d:" % r.randrange(100), "%s after" % ("#" if isa == "x86" else "//")])
         return k, [mov, nxt]
-    return k, [mov] + by
+    by = list(good)
+    if k.startswith("wrong-bytes"):
+        x = r.random()
+        if x < 0.5:
+            i = r.randrange(len(by))
+            by[i] = str((int(by[i]) + r.choice([1, 2, 16, 101])) % 256)
+        elif x < 0.75:
+            by = by[: r.randrange(1, len(by))]
+        else:
+            by = by[::-1]
+        tail = [r.choice(FILL[isa])]  # a non-.byte line ends the byte sequence
+    else:
+        tail = []
+    lines = [".byte " + ",".join(by)] if r.random() < 0.5 else [".byte " + b for b in by]
+    return k, [mov] + lines + tail
 
 
 def part(isa, r, n, stats):
@@ -677,7 +698,7 @@ def floors(tier):
     for isa in ("x86", "aarch64"):
         for s in STYLES[isa]:
             f["style:%s:%s" % (isa, s)] = 5 if q else 100
-    for d in ("other-reg", "other-val", "other-reg-end", "other-val-end", "no-bytes", "no-bytes-end"):
+    for d in DECOY_KINDS:
         f["decoy:" + d] = 20 if q else 400
         f["decoy_in_body:" + d] = 5 if q else 100
     return f
